@@ -79,11 +79,12 @@ def inject(spec0, c):
   pieces, ref, cls_inst = driven_pieces(spec)
   kinds = ["dup_same", "dup_overlap", "dup_parent_field", "net_plus_block", "net_plus_net", "remove_driver",
            "loop", "read_child_wire", "write_own_inport", "write_child_outport", "write_child_wire",
-           "op_in_update", "op_in_update_ff", "ff_to_slice"]
+           "op_in_update", "op_in_update_ff", "ff_to_slice", "const_bad_position"]
   c.shuffle(kinds)
   # the structurally demanding kinds are rarely feasible: try one of them first half of the time
   if c.random() < 0.5:
-    first = c.choice(["remove_driver", "loop", "read_child_wire", "dup_parent_field", "net_plus_net", "write_child_outport"])
+    first = c.choice(["remove_driver", "loop", "read_child_wire", "dup_parent_field", "net_plus_net", "write_child_outport",
+                      "const_bad_position"])
     kinds.remove(first)
     kinds.insert(0, first)
   for kind in kinds:
@@ -216,6 +217,46 @@ def _try(spec, kind, c, pieces, ref, cls_inst):
           return {ST}
         _newblk(cd, "zwr", [["assign", p, ["const", w, 0]]])
         return {ST, MW}
+  if kind == "const_bad_position":
+    # a constant tied to a fresh port / wire from a hierarchical position the port rules forbid (the same
+    # rules that apply to a wire driver): own InPort from inside (Type 5 / top: the port is itself a writer),
+    # child's OutPort or Wire from the parent (Type 7), anything two levels down (Type 9)
+    def sub_path(sb):
+      return [["a", sb["name"]]] + ([["i", 0]] if sb["dims"] else [])
+
+    def sub_cls(sb):
+      return (sb.get("cls_list") or [sb["cls"]])[0]
+    variants = ["own_in", "child_out", "child_wire", "grand_in", "grand_out", "grand_wire"]
+    c.shuffle(variants)
+    w = c.choice([1, 3, 8, 16])
+    val = {"const": c.randrange(1 << w), "w": c.choice([w, None])}
+    for var in variants:
+      names = list(spec["comps"])
+      c.shuffle(names)
+      for cname in names:
+        cd = spec["comps"][cname]
+        if var == "own_in":
+          cd["signals"].append({"name": "zq0", "kind": "in", "type": w, "dims": []})
+          cd["items"].append({"k": "connect", "a": [["a", "zq0"]], "b": val, "flip": False, "op": c.choice(["connect", "//="])})
+          return {ST, MW}
+        if not cd["subs"]:
+          continue
+        sb = c.choice(cd["subs"])
+        ccd = spec["comps"][sub_cls(sb)]
+        kindmap = {"in": "in", "out": "out", "wire": "wire"}
+        if var.startswith("child_"):
+          ccd["signals"].append({"name": "zq0", "kind": kindmap[var.split("_")[1]], "type": w, "dims": []})
+          cd["items"].append({"k": "connect", "a": sub_path(sb) + [["a", "zq0"]], "b": val, "flip": False,
+                              "op": c.choice(["connect", "//="])})
+          return {ST}
+        if not ccd["subs"]:
+          continue
+        sb2 = c.choice(ccd["subs"])
+        gcd = spec["comps"][sub_cls(sb2)]
+        gcd["signals"].append({"name": "zq0", "kind": kindmap[var.split("_")[1]], "type": w, "dims": []})
+        cd["items"].append({"k": "connect", "a": sub_path(sb) + sub_path(sb2) + [["a", "zq0"]], "b": val, "flip": False,
+                            "op": c.choice(["connect", "//="])})
+        return {ST}
   if kind == "write_own_inport":
     for cname, cd in spec["comps"].items():
       sgs = [s_ for s_ in cd["signals"] if s_["kind"] == "in" and isinstance(s_["type"], int) and not s_["dims"]]
